@@ -436,6 +436,8 @@ def run(res, tier):
     S.sticky_rule(res, fx, 'STICKY', file_re=r'^(message/|util/String|util/ByteBuffer|support/(Point|Rect|Tuple))', floor=6)
     ring_contiguous_rule(res, fx)
     inline_array_type_rule(res, fx)
+    res.rule('NEST-TLS', 'the nesting-depth counter that lets Message::Unflatten refuse over-deep input is thread-local (otherwise concurrent parses of valid Messages fail)', floor=1)
+    common.nest_tls_rule(res, fx, 'NEST-TLS', [r'^message/'])
     exact_fit_rule(res, fx)
     min_entry_rule(res, fx)
     checksum_agree_rule(res, fx, tcs, table)
